@@ -1345,6 +1345,48 @@ def run(ctx: vf.Ctx):
                             'pass-down keys of ForEachBlockPass']
 
 
+def replay_br(ctx, case) -> bool:
+    """re-run one recorded Circuit.batch_replace case (circuits there are built by appends only,
+    so re-appending in iteration order reproduces the cycle layout; checked)"""
+    import c11_passes as P
+    from bqskit.ir.circuit import Circuit
+    from bqskit.ir.gates import CircuitGate
+    from bqskit.ir.operation import Operation
+
+    def mk(g, loc):
+        if g[0] == 'C':
+            c = make_circuit(len(loc), g[1])
+            return Operation(CircuitGate(c), loc, c.params)
+        gate, params = P.CATALOGUE[g[1]]
+        return Operation(gate, loc, list(params))
+    circuit = Circuit(case['nq'])
+    for cy, g, loc in case['ops']:
+        circuit.append(mk(g, loc))
+    again = [[int(cy), op_repr(op), [int(q) for q in op.location]] for cy, op in circuit.operations_with_cycles()]
+    if again != case['ops']:
+        return False
+    newops = [mk(g, loc) for g, loc in case['newops']]
+    try:
+        circuit.batch_replace([tuple(p) for p in case['points']], newops)
+        got = ['OK', circuit.num_cycles,
+               [[int(cy), canon_gate(op_repr(op), op.num_qudits), [int(q) for q in op.location]]
+                for cy, op in circuit.operations_with_cycles()]]
+    except IndexError:
+        got = ['ERR', 'IndexError']
+    except ValueError:
+        got = ['ERR', 'ValueError']
+    ln = vf.run_model('ctl', [f"br {case['ncyc']} {fmt(case['ops'])} {fmt(case['points'])} {fmt(case['newops'])}"])[0]
+    m = parse(ln)
+    if m[0] == 'OK':
+        m = ['OK', m[1], [[cy, canon_gate(g, len(loc)), loc] for cy, g, loc in m[2]]]
+    ctx.case(('br-replay', fmt(case['ops']), fmt(case['points'])), nontrivial=True)
+    if m != got and not (m[0] == 'ERR' and m[1] == 'Unmodelled'):
+        ctx.violation(dict(call='Circuit.batch_replace', symptom='model-mismatch'), case, m, got,
+                      'Circuit.batch_replace differs from the positional write-back model', kind='correspondence',
+                      corr='C11_batch_replace_positional: coq/ctl/ForEach.v vs bqskit/ir/circuit.py')
+    return True
+
+
 def replay(ctx, data):
     warnings.simplefilter('ignore')
     from bqskit.ir.circuit import Circuit  # noqa: F401
@@ -1361,7 +1403,8 @@ def replay(ctx, data):
         check_metric(ctx)
         return
     if case.get('kind') == 'br':
-        check_batch_replace(ctx)
+        if not replay_br(ctx, case):
+            check_batch_replace(ctx)
         return
     sc = case.get('scenario')
     if sc is None:
